@@ -26,6 +26,10 @@ Inductive ctl (R B S : Type) :=
 | CNext (s : S).
 Arguments CRet {R B S}. Arguments CPanic {R B S}. Arguments CBreak {R B S}. Arguments CCont {R B S}. Arguments CNext {R B S}.
 
+(* err == dsig.ErrMissingSignature (goxmldsig's sentinel error value) *)
+Definition is_missing_signature (e : option err) : bool :=
+  match e with Some EMissingSignature => true | _ => false end.
+
 Definition bindc {R B S S'} (c : ctl R B S) (k : S -> ctl R B S') : ctl R B S' :=
   match c with
   | CRet r => CRet r
